@@ -548,6 +548,10 @@ class Server(base_server.BaseServer):
         except exceptions.ConnectionRefusedError as exc:
             fail_reason = exc.error_args
             success = False
+        except Exception:
+            # the connect handler failed: the client is not connected
+            self.manager.disconnect(sid, namespace, ignore_queue=True)
+            raise
 
         if success is False:
             if self.always_connect:
